@@ -19,7 +19,7 @@ RULE = (
 ASSUMPTIONS = ["coefficients concrete, constants and behaviour values symbolic", "linprog = exact LP (is_empty, refines); float tolerances via replay only"]
 BOUNDS = {"quick": {"alternatives": "<=2 per side", "terms per alternative": "<=2", "variables": "<=3"}, "thorough": {"alternatives": "<=3 per side", "terms per alternative": "<=3", "variables": "<=4"}}
 OPTS = {"quick": {"tier_budget_s": 220, "max_paths": 3000, "job_budget_s": 60, "witness_rate": 0.4}, "thorough": {"tier_budget_s": 1800, "max_paths": 30000, "job_budget_s": 400}}
-REACH = {"quick": ["contains:True", "contains:False", "merge:OK", "ctor:VE", "ctor:OK", "le:True", "le:False", "discarded-empty"]}
+REACH = {"quick": ["contains:True", "contains:False", "merge:OK", "ctor:VE", "ctor:OK", "le:True", "le:False", "discarded-empty", "merged-to-nothing"]}
 
 
 def rand_alts(rng, names, k, maxt, alphabet):
@@ -56,6 +56,9 @@ def jobs(tier, seed):
         G1 = rand_alts(rng, ["x", "y"], rng.randint(1, maxa), maxt, alphabet)
         G2 = rand_alts(rng, ["x", "y"], rng.randint(1, maxa), maxt, alphabet)
         out.append({"kind": "merge", "A1": A1, "G1": G1, "A2": A2, "G2": G2})
+    # viewpoints whose guarantee alternatives can be pairwise disjoint: nothing is left of the merged guarantees
+    for G1, G2 in (([[{"y": 1}]], [[{"y": -1}]]), ([[{"y": 1}], [{"y": -1, "x": 1}]], [[{"y": -1}, {"x": -1}]])):
+        out.append({"kind": "merge", "A1": [[{"x": 1}]], "G1": G1, "A2": [[{"x": 1}]], "G2": G2})
     return out
 
 
@@ -189,6 +192,33 @@ def run(ctx, job):
             Am, bm = O.matrix_of(rows, nm)
             ctx.obligation(f"no-empty-alternative-in-merged-{which}", lp.feasibility_claims(ctx.mode, Am, bm)[1], info=f"alt{k}")
     ctx.expect("merged-interface", [v.name for v in r.inputvars] == ["x"] and [v.name for v in r.outputvars] == ["y"])
+    # the merged lists are asked like any other: membership is the disjunction of what is left (nothing left = nothing
+    # contained), and an operand's guarantees are within the merged ones only if the union says so
+    # (asked only when nothing is left of one of the merged lists: the general case is the 'contains' / 'le' families)
+    if r.a.nested_termlist and r.g.nested_termlist:
+        return {"cls": "merge:OK"}
+    beh = {X: ctx.const("v_x"), Y: ctx.const("v_y")}
+    for which, nest in (("assumptions", r.a), ("guarantees", r.g)):
+        if not nest.nested_termlist:
+            ctx.tag("merged-to-nothing")
+        try:
+            ans = bool(nest.contains_behavior(beh))
+        except Exception as e:
+            ctx.expect("only-documented-exceptions", False, info=B.classify(e) + "@" + B.innermost_pacti_frame(e))
+            continue
+        alts = []
+        for tl in nest.nested_termlist:
+            alts.append(z3.And(*[sum((E.toz(a) * E.toz(beh[B.Var(v)]) for v, a in coefs.items()), z3.RealVal(0)) <= E.toz(c) for coefs, c in O.rows_of(tl)]))
+        ref = z3.Or(*alts) if alts else z3.BoolVal(False)
+        ctx.obligation(f"merged-{which}-membership-is-the-disjunction", z3.Not(ref) if ans else ref)
+    try:
+        le = bool(NestedPolyhedra(g1, False) <= r.g)
+    except Exception as e:
+        ctx.expect("only-documented-exceptions", False, info=B.classify(e) + "@" + B.innermost_pacti_frame(e))
+        return {"cls": "merge:OK"}
+    if le:
+        names = O.names_of(*g1, *r.g.nested_termlist)
+        ctx.obligation("operand-within-merged-only-if-contained", z3.And(O.box(names), union(g1), union_broken(r.g.nested_termlist)))
     return {"cls": "merge:OK"}
 
 
